@@ -31,6 +31,10 @@ DEADLINE = M.key_cmp("lt", M.t_path("now"), M.t_path("self.end_token_hold_time")
 
 def check(ctx):
     P = ctx.prog
+    # "no application is starved": round-robin needs every application to end its cycle; the library's own sweeping applications
+    # (LiveList, DpScanner) must mark the probed address done after every reply / time-out and advance only then (C18 c.sweep)
+    from rules import C18
+    rule.import_clauses(ctx, "C18", lambda s_: C18.check(s_), clauses=("c.sweep",), as_clause="e.cooperation")
     fns = fdl_fns(P)
     sites = []
     for f in fns:
